@@ -238,6 +238,18 @@ fn mk_event(case: &Case, left: bool, i: usize) -> StreamEvent {
 }
 
 fn mk_node(left: &str, right: &str, w_ms: u64, cond_le: bool) -> StreamJoinNode {
+    // The window a node joins with is its public `join_strategy` field. For every second window size (a pure function
+    // of the case, no draw) the node is built with another window and the field is assigned afterwards - the way a
+    // node is re-tuned - so a value derived from the strategy at construction time shows.
+    let retuned = (w_ms / 1000) % 2 == 1;
+    let mut n = mk_node_with(left, right, if retuned { w_ms + 7000 } else { w_ms }, cond_le);
+    if retuned {
+        n.join_strategy = JoinStrategy::TimeWindow { duration: Duration::from_millis(w_ms) };
+    }
+    n
+}
+
+fn mk_node_with(left: &str, right: &str, w_ms: u64, cond_le: bool) -> StreamJoinNode {
     StreamJoinNode::new(
         left.to_string(),
         right.to_string(),
